@@ -174,9 +174,31 @@ def r2_strip_keeps_tail_position(ctx):
               "the splice became unreachable even for a final block (rule would pass vacuously)")
 
 
+def r3_heap_bounded(ctx):
+    R = "R-C16-3"
+    ctx.rule(R, "binaries dropped by earlier iterations are reclaimed: truncation releases (R-C06-1), release queues every slot whose count reaches "
+                "zero, and process_pending_free runs at every step boundary and frees exactly the slots still at zero (shared with C06)")
+    from rules import c06
+    before = len(ctx.obs)
+    c06.r5_walkers(ctx)
+    c06.r3_reclaim_at_step_boundary(ctx)
+    kept = []
+    for o in ctx.obs[before:]:
+        if "release" in o["site"] or "process_pending_free" in o["site"] or "retain" in o["site"]:
+            o = dict(o)
+            o["rule"] = R
+            kept.append(o)
+    ctx.obs[before:] = kept
+    for k in list(ctx.rules):
+        if k.startswith("R-C06"):
+            del ctx.rules[k]
+    ctx.floors[:] = [f for f in ctx.floors if not f["rule"].startswith("R-C06")]
+
+
 def run(ctx):
     r1_tail_call_handler(ctx)
     r2_strip_keeps_tail_position(ctx)
+    r3_heap_bounded(ctx)
     return (
         "Decides the mechanism only: the TailCall handler pushes no frame (also transitively), truncates locals on every non-error path before "
         "pushing the new ones, overwrites the top frame in place with the same locals_base; frames are pushed at exactly three reviewed sites; "
